@@ -31,7 +31,7 @@ theorem lookupAcc_setAcc (stats : List (List Val × Acc)) (k : List Val) (a : Ac
   | cons e rest ih =>
     obtain ⟨k', a'⟩ := e
     by_cases h : k' = k
-    · subst h; simp only [setAcc, if_true, lookupAcc_cons]
+    · subst h; simp only [setAcc, if_true, lookupAcc_cons]; split <;> rfl
     · simp only [setAcc, h, if_false, lookupAcc_cons, ih]
       by_cases h1 : k' = key <;> by_cases h2 : k = key <;> simp_all
 
@@ -45,7 +45,7 @@ theorem groupVals_append (xs ys : List (List Val × Val)) (key : List Val) :
 
 theorem groupVals_snoc (seen : List (List Val × Val)) (k : List Val) (v : Val) (key : List Val) :
     groupVals (seen ++ [(k, v)]) key = if k = key then groupVals seen key ++ [v] else groupVals seen key := by
-  by_cases h : k = key <;> simp [groupVals, List.filter_cons, h]
+  by_cases h : k = key <;> simp [groupVals, h]
 
 theorem mem_groupVals {kvs : List (List Val × Val)} {key : List Val} {v : Val} :
     v ∈ groupVals kvs key ↔ (key, v) ∈ kvs := by
@@ -119,5 +119,591 @@ theorem agg_count (kvs : List (List Val × Val)) (c : AggCol)
   obtain ⟨c', hc', hI⟩ := agg_count_total kvs
   rw [h] at hc'; cases hc'
   simp [hI key, cntSumm, hk, Acc.final]
+
+/-! ### facts about the mathematical aggregates on `List Rat` -/
+
+theorem ratSum_nil : ratSum [] = 0 := rfl
+
+theorem ratSum_snoc (xs : List Rat) (x : Rat) : ratSum (xs ++ [x]) = ratSum xs + x := by
+  simp [ratSum, List.foldl_append]
+
+theorem ratSum_single (x : Rat) : ratSum [x] = x := by
+  simp only [ratSum, List.foldl_cons, List.foldl_nil]; grind
+
+theorem foldl_add_eq (xs : List Rat) (a : Rat) : xs.foldl (· + ·) a = a + ratSum xs := by
+  induction xs generalizing a with
+  | nil => simp only [ratSum, List.foldl_nil]; grind
+  | cons x xs ih =>
+    simp only [ratSum, List.foldl_cons]
+    rw [ih (a + x), ih (0 + x)]
+    grind
+
+theorem ratSum_cons (x : Rat) (xs : List Rat) : ratSum (x :: xs) = x + ratSum xs := by
+  simp only [ratSum, List.foldl_cons]
+  rw [foldl_add_eq xs (0 + x)]
+  simp only [ratSum]; grind
+
+theorem ratMin_single (x : Rat) : ratMin [x] = x := rfl
+theorem ratMax_single (x : Rat) : ratMax [x] = x := rfl
+
+theorem ratMin_snoc (xs : List Rat) (q : Rat) (h : xs ≠ []) :
+    ratMin (xs ++ [q]) = if q < ratMin xs then q else ratMin xs := by
+  cases xs with
+  | nil => exact absurd rfl h
+  | cons x t => simp only [ratMin, List.cons_append, List.foldl_append, List.foldl_cons, List.foldl_nil]; rfl
+
+theorem ratMax_snoc (xs : List Rat) (q : Rat) (h : xs ≠ []) :
+    ratMax (xs ++ [q]) = if ratMax xs < q then q else ratMax xs := by
+  cases xs with
+  | nil => exact absurd rfl h
+  | cons x t => simp only [ratMax, List.cons_append, List.foldl_append, List.foldl_cons, List.foldl_nil]; rfl
+
+theorem foldl_min_spec (xs : List Rat) (a : Rat) :
+    let m := xs.foldl (fun m y => if y < m then y else m) a
+    m ∈ a :: xs ∧ ∀ x ∈ a :: xs, m ≤ x := by
+  induction xs generalizing a with
+  | nil => simp
+  | cons y t ih =>
+    simp only [List.foldl_cons]
+    obtain ⟨hm, hle⟩ := ih (if y < a then y else a)
+    constructor
+    · rcases List.mem_cons.1 hm with h | h
+      · rw [h]; split <;> simp
+      · simp [h]
+    · intro x hx
+      have h0 := hle _ List.mem_cons_self
+      rcases List.mem_cons.1 hx with h | h
+      · subst h; split at h0 <;> grind
+      · rcases List.mem_cons.1 h with h | h
+        · subst h; split at h0 <;> grind
+        · exact hle x (List.mem_cons_of_mem _ h)
+
+theorem foldl_max_spec (xs : List Rat) (a : Rat) :
+    let m := xs.foldl (fun m y => if m < y then y else m) a
+    m ∈ a :: xs ∧ ∀ x ∈ a :: xs, x ≤ m := by
+  induction xs generalizing a with
+  | nil => simp
+  | cons y t ih =>
+    simp only [List.foldl_cons]
+    obtain ⟨hm, hle⟩ := ih (if a < y then y else a)
+    constructor
+    · rcases List.mem_cons.1 hm with h | h
+      · rw [h]; split <;> simp
+      · simp [h]
+    · intro x hx
+      have h0 := hle _ List.mem_cons_self
+      rcases List.mem_cons.1 hx with h | h
+      · subst h; split at h0 <;> grind
+      · rcases List.mem_cons.1 h with h | h
+        · subst h; split at h0 <;> grind
+        · exact hle x (List.mem_cons_of_mem _ h)
+
+/-- `ratMin` is the mathematical minimum: an element of the list that is below every element -/
+theorem ratMin_spec (xs : List Rat) (h : xs ≠ []) : ratMin xs ∈ xs ∧ ∀ x ∈ xs, ratMin xs ≤ x := by
+  cases xs with
+  | nil => exact absurd rfl h
+  | cons a t => exact foldl_min_spec t a
+
+/-- `ratMax` is the mathematical maximum: an element of the list that is above every element -/
+theorem ratMax_spec (xs : List Rat) (h : xs ≠ []) : ratMax xs ∈ xs ∧ ∀ x ∈ xs, x ≤ ratMax xs := by
+  cases xs with
+  | nil => exact absurd rfl h
+  | cons a t => exact foldl_max_spec t a
+
+/-- Σ(x−m)² = Σx² − 2·m·Σx + n·m² -/
+theorem ratSum_sq_dev (xs : List Rat) (m : Rat) :
+    ratSum (xs.map (fun x => (x - m) * (x - m))) =
+      ratSum (xs.map (fun x => x * x)) - 2 * m * ratSum xs + (xs.length : Rat) * (m * m) := by
+  induction xs with
+  | nil => simp only [List.map_nil, ratSum_nil, List.length_nil]; grind
+  | cons x t ih =>
+    simp only [List.map_cons, ratSum_cons, ih, List.length_cons]
+    have : ((t.length + 1 : Nat) : Rat) = (t.length : Rat) + 1 := by simp
+    rw [this]
+    grind
+
+/-- the "mean of squares minus square of the mean" formula IS the population variance -/
+theorem variance_formula (xs : List Rat) (h : xs ≠ []) :
+    ratSum (xs.map (fun x => x * x)) / (xs.length : Rat)
+        - (ratSum xs / (xs.length : Rat)) * (ratSum xs / (xs.length : Rat)) = ratVariance xs := by
+  have hn : (xs.length : Rat) ≠ 0 := by
+    cases xs with
+    | nil => exact absurd rfl h
+    | cons a t => simp only [List.length_cons]; exact_mod_cast Nat.succ_ne_zero t.length
+  simp only [ratVariance, ratAvg, ratSum_sq_dev]
+  generalize (xs.length : Rat) = n at hn ⊢
+  generalize ratSum xs = s
+  generalize ratSum (xs.map (fun x => x * x)) = s2
+  grind
+
+/-! ### the numeric aggregates MIN, MAX, SUM, AVG, VARIANCE, MEDIAN -/
+
+def AggKind.isNum : AggKind → Bool
+  | .min | .max | .sum | .avg | .variance | .median => true
+  | _ => false
+
+/-- the accumulator that summarises the non-empty list `xs` of a group's numbers -/
+def numAcc : AggKind → List Rat → Acc
+  | .min, xs => .best (ratMin xs)
+  | .max, xs => .best (ratMax xs)
+  | .sum, xs => .sum (ratSum xs)
+  | .avg, xs => .sumCnt (ratSum xs) xs.length
+  | .variance, xs => .sumSqCnt (ratSum xs) (ratSum (xs.map (fun x => x * x))) xs.length
+  | _, xs => .vals xs
+
+def numSumm (k : AggKind) (xs : List Rat) : Option Acc := if xs = [] then none else some (numAcc k xs)
+
+/-- the mathematical value of the aggregate -/
+def numMath : AggKind → List Rat → Rat
+  | .min, xs => ratMin xs
+  | .max, xs => ratMax xs
+  | .sum, xs => ratSum xs
+  | .avg, xs => ratAvg xs
+  | .variance, xs => ratVariance xs
+  | _, xs => medianOf xs
+
+/-- the accumulator update of `AggCol.increment`, verbatim -/
+def numUpd (k : AggKind) (cur : Option Acc) (q : Rat) : Acc :=
+  match k, cur with
+  | .min, some (.best b) => .best (if q < b then q else b)
+  | .min, _ => .best q
+  | .max, some (.best b) => .best (if b < q then q else b)
+  | .max, _ => .best q
+  | .sum, some (.sum s) => .sum (s + q)
+  | .sum, _ => .sum q
+  | .avg, some (.sumCnt s n) => .sumCnt (s + q) (n + 1)
+  | .avg, _ => .sumCnt q 1
+  | .variance, some (.sumSqCnt s s2 n) => .sumSqCnt (s + q) (s2 + q * q) (n + 1)
+  | .variance, _ => .sumSqCnt q (q * q) 1
+  | _, some (.vals xs) => .vals (xs ++ [q])
+  | _, _ => .vals [q]
+
+theorem increment_num (c : AggCol) (k : AggKind) (hk : c.kind = some k) (hn : k.isNum = true)
+    (key : List Val) (v : Val) (q : Rat) (s : Option Bool) (hp : numParse c.isStr v = .ok (q, s)) :
+    c.increment key v =
+      .ok { c with isStr := s, stats := setAcc c.stats key (numUpd k (lookupAcc c.stats key) q) } := by
+  cases k <;> simp [AggKind.isNum] at hn <;>
+    simp only [AggCol.increment, hk, hp, bind, Except.bind, numUpd] <;>
+    generalize lookupAcc c.stats key = cur <;>
+    (cases cur with
+     | none => rfl
+     | some a => cases a <;> rfl)
+
+/-- the NumHandler on homogeneous input: whatever it has decided so far (nothing, or `asStr`), it
+returns the number `numOfVal asStr v` and decides `asStr` -/
+theorem numParse_of_numOfVal (asStr : Bool) (v : Val) (x : Rat) (h : numOfVal asStr v = some x)
+    (o : Option Bool) (ho : o = none ∨ o = some asStr) : numParse o v = .ok (x, some asStr) := by
+  cases asStr
+  · -- numbers
+    have : v = .at (.num x) := by
+      unfold numOfVal at h; split at h <;> simp_all
+    subst this
+    rcases ho with rfl | rfl <;> simp [numParse]
+  · have : ∃ s, v = .at (.str s) ∧ parseNumStr s = some x := by
+      unfold numOfVal at h; split at h <;> simp_all
+    obtain ⟨s, rfl, hs⟩ := this
+    rcases ho with rfl | rfl <;> simp [numParse, hs]
+
+theorem numUpd_numSumm (k : AggKind) (hn : k.isNum = true) (xs : List Rat) (q : Rat) :
+    numUpd k (numSumm k xs) q = numAcc k (xs ++ [q]) := by
+  by_cases hx : xs = []
+  · subst hx
+    cases k <;> simp [AggKind.isNum] at hn <;>
+      simp [numUpd, numSumm, numAcc, ratSum_single, ratMin_single, ratMax_single]
+  · cases k <;> simp [AggKind.isNum] at hn <;>
+      simp [numUpd, numSumm, numAcc, hx, ratSum_snoc, ratMin_snoc, ratMax_snoc]
+
+theorem final_numAcc (k : AggKind) (hn : k.isNum = true) (xs : List Rat) (hx : xs ≠ []) :
+    Acc.final (numAcc k xs) = Val.num (numMath k xs) := by
+  cases k <;> simp [AggKind.isNum] at hn <;> simp only [numAcc, Acc.final, numMath]
+  · rfl
+  · rw [variance_formula xs hx]
+
+/-- the numbers of one group, in input order -/
+def groupNums (asStr : Bool) (kvs : List (List Val × Val)) (key : List Val) : List Rat :=
+  (groupVals kvs key).filterMap (numOfVal asStr)
+
+theorem groupNums_snoc (asStr : Bool) (seen : List (List Val × Val)) (k : List Val) (v : Val) (x : Rat)
+    (h : numOfVal asStr v = some x) (key : List Val) :
+    groupNums asStr (seen ++ [(k, v)]) key =
+      if k = key then groupNums asStr seen key ++ [x] else groupNums asStr seen key := by
+  by_cases hk : k = key <;> simp [groupNums, groupVals_snoc, hk, List.filterMap_append, h]
+
+/-- on homogeneous input no value is dropped: the group's numbers are in 1–1 correspondence with its values -/
+theorem groupNums_eq_nil (asStr : Bool) (kvs : List (List Val × Val))
+    (hom : ∀ p ∈ kvs, ∃ x, numOfVal asStr p.2 = some x) (key : List Val) :
+    groupNums asStr kvs key = [] ↔ groupVals kvs key = [] := by
+  constructor
+  · intro h
+    cases hg : groupVals kvs key with
+    | nil => rfl
+    | cons v t =>
+      have hv : v ∈ groupVals kvs key := by simp [hg]
+      obtain ⟨x, hx⟩ := hom _ (mem_groupVals.1 hv)
+      simp [groupNums, hg, hx] at h
+  · intro h; simp [groupNums, h]
+
+theorem groupNums_length (asStr : Bool) (kvs : List (List Val × Val))
+    (hom : ∀ p ∈ kvs, ∃ x, numOfVal asStr p.2 = some x) (key : List Val) :
+    (groupNums asStr kvs key).length = (groupVals kvs key).length := by
+  have : ∀ vs : List Val, (∀ v ∈ vs, ∃ x, numOfVal asStr v = some x) →
+      (vs.filterMap (numOfVal asStr)).length = vs.length := by
+    intro vs
+    induction vs with
+    | nil => simp
+    | cons v t ih =>
+      intro h
+      obtain ⟨x, hx⟩ := h v List.mem_cons_self
+      simp [hx, ih (fun w hw => h w (List.mem_cons_of_mem _ hw))]
+  exact this _ (fun v hv => hom _ (mem_groupVals.1 hv))
+
+def NumInv (asStr : Bool) (k : AggKind) (c : AggCol) (seen : List (List Val × Val)) : Prop :=
+  c.kind = some k ∧ (c.isStr = none ∨ c.isStr = some asStr) ∧
+    ∀ key, lookupAcc c.stats key = numSumm k (groupNums asStr seen key)
+
+theorem num_step (asStr : Bool) (k : AggKind) (hn : k.isNum = true)
+    (c : AggCol) (seen : List (List Val × Val)) (key0 : List Val) (v : Val)
+    (h : NumInv asStr k c seen) (hq : ∃ x, numOfVal asStr (key0, v).2 = some x) :
+    ∃ c', c.increment key0 v = .ok c' ∧ NumInv asStr k c' (seen ++ [(key0, v)]) := by
+  obtain ⟨hk, hs, hst⟩ := h
+  obtain ⟨x, hx⟩ := hq
+  have hp := numParse_of_numOfVal asStr v x hx c.isStr hs
+  refine ⟨_, increment_num c k hk hn key0 v x _ hp, hk, Or.inr rfl, ?_⟩
+  intro key
+  simp only [lookupAcc_setAcc, groupNums_snoc asStr seen key0 v x hx]
+  by_cases hkk : key0 = key
+  · subst hkk
+    simp only [if_true, hst key0, numUpd_numSumm k hn]
+    simp [numSumm]
+  · simp [hkk, hst key]
+
+/-- the full description of a numeric aggregate column fed homogeneous numbers (all numbers, or all
+numeric strings): the fold succeeds and every key maps to the summary of its numbers -/
+theorem agg_num_total (k : AggKind) (hn : k.isNum = true) (asStr : Bool) (kvs : List (List Val × Val))
+    (hom : ∀ p ∈ kvs, ∃ x, numOfVal asStr p.2 = some x) :
+    ∃ c, foldIncr { kind := some k } kvs = .ok c ∧
+      ∀ key, lookupAcc c.stats key = numSumm k (groupNums asStr kvs key) := by
+  obtain ⟨c, hc, hI⟩ := foldIncr_inv0 (Q := fun p => ∃ x, numOfVal asStr p.2 = some x)
+    (num_step asStr k hn) { kind := some k }
+    ⟨rfl, Or.inl rfl, fun key => by simp [lookupAcc_nil, groupNums, groupVals_nil, numSumm]⟩ kvs hom
+  exact ⟨c, hc, hI.2.2⟩
+
+/-- under homogeneity the numeric aggregates never raise -/
+theorem agg_num_succeeds (k : AggKind) (hn : k.isNum = true) (asStr : Bool) (kvs : List (List Val × Val))
+    (hom : ∀ p ∈ kvs, ∃ x, numOfVal asStr p.2 = some x) :
+    ∃ c, foldIncr { kind := some k } kvs = .ok c :=
+  let ⟨c, hc, _⟩ := agg_num_total k hn asStr kvs hom; ⟨c, hc⟩
+
+/-- all six numeric aggregates at once: the final value of an occurring key is the mathematical
+aggregate `numMath k` of the group's numbers in input order -/
+theorem agg_num (k : AggKind) (hn : k.isNum = true) (asStr : Bool) (kvs : List (List Val × Val))
+    (hom : ∀ p ∈ kvs, ∃ x, numOfVal asStr p.2 = some x) (c : AggCol)
+    (h : foldIncr { kind := some k } kvs = .ok c) (key : List Val) (hk : groupVals kvs key ≠ []) :
+    (lookupAcc c.stats key).map Acc.final = some (Val.num (numMath k (groupNums asStr kvs key))) := by
+  obtain ⟨c', hc', hI⟩ := agg_num_total k hn asStr kvs hom
+  rw [h] at hc'; cases hc'
+  have hne : groupNums asStr kvs key ≠ [] := fun e => hk ((groupNums_eq_nil asStr kvs hom key).1 e)
+  simp [hI key, numSumm, hne, final_numAcc k hn _ hne]
+
+/-! #### the six named statements
+
+`asStr` says whether the column's values are numeric strings (`true`) or numbers (`false`); `hom` is the
+homogeneity hypothesis; the group's numbers in input order are
+`(groupVals kvs key).filterMap (numOfVal asStr)` (nothing is dropped, see `groupNums_length`).
+The hypothesis `kvs ≠ []` of the task statement is not needed (it follows from `hk`). -/
+
+theorem agg_sum (asStr : Bool) (kvs : List (List Val × Val))
+    (hom : ∀ p ∈ kvs, ∃ x, numOfVal asStr p.2 = some x) (c : AggCol)
+    (h : foldIncr { kind := some .sum } kvs = .ok c) (key : List Val) (hk : groupVals kvs key ≠ []) :
+    (lookupAcc c.stats key).map Acc.final =
+      some (Val.num (ratSum ((groupVals kvs key).filterMap (numOfVal asStr)))) :=
+  agg_num .sum rfl asStr kvs hom c h key hk
+
+theorem agg_min (asStr : Bool) (kvs : List (List Val × Val))
+    (hom : ∀ p ∈ kvs, ∃ x, numOfVal asStr p.2 = some x) (c : AggCol)
+    (h : foldIncr { kind := some .min } kvs = .ok c) (key : List Val) (hk : groupVals kvs key ≠ []) :
+    (lookupAcc c.stats key).map Acc.final =
+      some (Val.num (ratMin ((groupVals kvs key).filterMap (numOfVal asStr)))) :=
+  agg_num .min rfl asStr kvs hom c h key hk
+
+theorem agg_max (asStr : Bool) (kvs : List (List Val × Val))
+    (hom : ∀ p ∈ kvs, ∃ x, numOfVal asStr p.2 = some x) (c : AggCol)
+    (h : foldIncr { kind := some .max } kvs = .ok c) (key : List Val) (hk : groupVals kvs key ≠ []) :
+    (lookupAcc c.stats key).map Acc.final =
+      some (Val.num (ratMax ((groupVals kvs key).filterMap (numOfVal asStr)))) :=
+  agg_num .max rfl asStr kvs hom c h key hk
+
+theorem agg_avg (asStr : Bool) (kvs : List (List Val × Val))
+    (hom : ∀ p ∈ kvs, ∃ x, numOfVal asStr p.2 = some x) (c : AggCol)
+    (h : foldIncr { kind := some .avg } kvs = .ok c) (key : List Val) (hk : groupVals kvs key ≠ []) :
+    (lookupAcc c.stats key).map Acc.final =
+      some (Val.num (ratAvg ((groupVals kvs key).filterMap (numOfVal asStr)))) :=
+  agg_num .avg rfl asStr kvs hom c h key hk
+
+/-- `Σx²/n − (Σx/n)²`, which is what the engine computes, equals the population variance `Σ(x−μ)²/n` -/
+theorem agg_variance (asStr : Bool) (kvs : List (List Val × Val))
+    (hom : ∀ p ∈ kvs, ∃ x, numOfVal asStr p.2 = some x) (c : AggCol)
+    (h : foldIncr { kind := some .variance } kvs = .ok c) (key : List Val) (hk : groupVals kvs key ≠ []) :
+    (lookupAcc c.stats key).map Acc.final =
+      some (Val.num (ratVariance ((groupVals kvs key).filterMap (numOfVal asStr)))) :=
+  agg_num .variance rfl asStr kvs hom c h key hk
+
+theorem agg_median (asStr : Bool) (kvs : List (List Val × Val))
+    (hom : ∀ p ∈ kvs, ∃ x, numOfVal asStr p.2 = some x) (c : AggCol)
+    (h : foldIncr { kind := some .median } kvs = .ok c) (key : List Val) (hk : groupVals kvs key ≠ []) :
+    (lookupAcc c.stats key).map Acc.final =
+      some (Val.num (medianOf ((groupVals kvs key).filterMap (numOfVal asStr)))) :=
+  agg_num .median rfl asStr kvs hom c h key hk
+
+/-- the mathematical reading of `agg_min`: the result is one of the group's numbers and a lower bound of all of them -/
+theorem agg_min_is_minimum (asStr : Bool) (kvs : List (List Val × Val))
+    (hom : ∀ p ∈ kvs, ∃ x, numOfVal asStr p.2 = some x) (c : AggCol)
+    (h : foldIncr { kind := some .min } kvs = .ok c) (key : List Val) (hk : groupVals kvs key ≠ []) :
+    ∃ m, (lookupAcc c.stats key).map Acc.final = some (Val.num m) ∧
+      m ∈ groupNums asStr kvs key ∧ ∀ x ∈ groupNums asStr kvs key, m ≤ x :=
+  ⟨_, agg_min asStr kvs hom c h key hk,
+    ratMin_spec _ (fun e => hk ((groupNums_eq_nil asStr kvs hom key).1 e))⟩
+
+theorem agg_max_is_maximum (asStr : Bool) (kvs : List (List Val × Val))
+    (hom : ∀ p ∈ kvs, ∃ x, numOfVal asStr p.2 = some x) (c : AggCol)
+    (h : foldIncr { kind := some .max } kvs = .ok c) (key : List Val) (hk : groupVals kvs key ≠ []) :
+    ∃ m, (lookupAcc c.stats key).map Acc.final = some (Val.num m) ∧
+      m ∈ groupNums asStr kvs key ∧ ∀ x ∈ groupNums asStr kvs key, x ≤ m :=
+  ⟨_, agg_max asStr kvs hom c h key hk,
+    ratMax_spec _ (fun e => hk ((groupNums_eq_nil asStr kvs hom key).1 e))⟩
+
+/-! ### ANY_VALUE -/
+
+def AnyInv (c : AggCol) (seen : List (List Val × Val)) : Prop :=
+  c.kind = some .anyValue ∧ ∀ key, lookupAcc c.stats key = (groupVals seen key).head?.map Acc.first
+
+theorem any_step (c : AggCol) (seen : List (List Val × Val)) (k : List Val) (v : Val)
+    (h : AnyInv c seen) (_ : True) :
+    ∃ c', c.increment k v = .ok c' ∧ AnyInv c' (seen ++ [(k, v)]) := by
+  obtain ⟨hk, hs⟩ := h
+  cases hg : groupVals seen k with
+  | nil =>
+    refine ⟨{ c with stats := setAcc c.stats k (.first v) }, ?_, hk, ?_⟩
+    · simp [AggCol.increment, hk, hs k, hg]
+    · intro key
+      simp only [lookupAcc_setAcc, groupVals_snoc]
+      by_cases hkk : k = key
+      · subst hkk; simp [hg]
+      · simp [hkk, hs key]
+  | cons old t =>
+    refine ⟨c, ?_, hk, ?_⟩
+    · simp [AggCol.increment, hk, hs k, hg]
+    · intro key
+      simp only [groupVals_snoc]
+      by_cases hkk : k = key
+      · subst hkk; simp [hs k, hg]
+      · simp [hkk, hs key]
+
+/-- ANY_VALUE always succeeds; the value of every key is the FIRST value of its group (and there is no
+entry for a key that does not occur) -/
+theorem agg_any_value_total (kvs : List (List Val × Val)) :
+    ∃ c, foldIncr { kind := some .anyValue } kvs = .ok c ∧
+      ∀ key, (lookupAcc c.stats key).map Acc.final = (groupVals kvs key).head? := by
+  obtain ⟨c, hc, hI⟩ := foldIncr_inv0 (Q := fun _ => True) any_step { kind := some .anyValue }
+    ⟨rfl, fun key => by simp [lookupAcc_nil, groupVals_nil]⟩ kvs (fun _ _ => trivial)
+  refine ⟨c, hc, fun key => ?_⟩
+  rw [hI.2 key]
+  cases (groupVals kvs key).head? <;> simp [Acc.final]
+
+theorem agg_any_value (kvs : List (List Val × Val)) (c : AggCol)
+    (h : foldIncr { kind := some .anyValue } kvs = .ok c) (key : List Val) (v : Val)
+    (hv : (groupVals kvs key).head? = some v) :
+    (lookupAcc c.stats key).map Acc.final = some v := by
+  obtain ⟨c', hc', hI⟩ := agg_any_value_total kvs
+  rw [h] at hc'; cases hc'
+  rw [hI key, hv]
+
+/-! ### ARRAY_AGG -/
+
+/-- the scalars of a list of values -/
+def atomsOf (vs : List Val) : List Atom := vs.filterMap (fun v => match v with | .at a => some a | .list _ => none)
+
+def arrSumm (vs : List Val) : Option Acc := if vs = [] then none else some (.arr (atomsOf vs))
+
+def ArrInv (c : AggCol) (seen : List (List Val × Val)) : Prop :=
+  c.kind = some .arrayAgg ∧ ∀ key, lookupAcc c.stats key = arrSumm (groupVals seen key)
+
+theorem atomsOf_snoc (vs : List Val) (a : Atom) : atomsOf (vs ++ [.at a]) = atomsOf vs ++ [a] := by
+  simp [atomsOf, List.filterMap_append]
+
+theorem map_at_atomsOf (vs : List Val) (h : ∀ v ∈ vs, ∃ a, v = .at a) : (atomsOf vs).map Val.at = vs := by
+  induction vs with
+  | nil => rfl
+  | cons v t ih =>
+    obtain ⟨a, rfl⟩ := h v List.mem_cons_self
+    simp only [atomsOf, List.filterMap_cons, List.map_cons]
+    congr 1
+    exact ih (fun w hw => h w (List.mem_cons_of_mem _ hw))
+
+theorem arr_step (c : AggCol) (seen : List (List Val × Val)) (k : List Val) (v : Val)
+    (h : ArrInv c seen) (hq : ∃ a, (k, v).2 = .at a) :
+    ∃ c', c.increment k v = .ok c' ∧ ArrInv c' (seen ++ [(k, v)]) := by
+  obtain ⟨hk, hs⟩ := h
+  obtain ⟨a, ha⟩ := hq
+  simp only at ha; subst ha
+  refine ⟨{ c with stats := setAcc c.stats k (.arr (atomsOf (groupVals seen k) ++ [a])) }, ?_, hk, ?_⟩
+  · simp only [AggCol.increment, hk, hs k, arrSumm]
+    by_cases he : groupVals seen k = [] <;> simp [he, atomsOf]
+  · intro key
+    simp only [lookupAcc_setAcc, groupVals_snoc]
+    by_cases hkk : k = key
+    · subst hkk; simp [arrSumm, atomsOf_snoc]
+    · simp [hkk, hs key]
+
+/-- ARRAY_AGG over scalar arguments succeeds, and the value of an occurring key is the list of exactly
+the group's scalars, in input order: mapping `Val.at` over it gives back `groupVals kvs key` -/
+theorem agg_array_agg_total (kvs : List (List Val × Val)) (hsc : ∀ p ∈ kvs, ∃ a, p.2 = .at a) :
+    ∃ c, foldIncr { kind := some .arrayAgg } kvs = .ok c ∧
+      ∀ key, lookupAcc c.stats key = arrSumm (groupVals kvs key) := by
+  obtain ⟨c, hc, hI⟩ := foldIncr_inv0 (Q := fun p => ∃ a, p.2 = .at a) arr_step { kind := some .arrayAgg }
+    ⟨rfl, fun key => by simp [lookupAcc_nil, groupVals_nil, arrSumm]⟩ kvs hsc
+  exact ⟨c, hc, hI.2⟩
+
+theorem agg_array_agg (kvs : List (List Val × Val)) (hsc : ∀ p ∈ kvs, ∃ a, p.2 = .at a) (c : AggCol)
+    (h : foldIncr { kind := some .arrayAgg } kvs = .ok c) (key : List Val) (hk : groupVals kvs key ≠ []) :
+    ∃ as : List Atom, as.map Val.at = groupVals kvs key ∧
+      (lookupAcc c.stats key).map Acc.final = some (Val.list as) := by
+  obtain ⟨c', hc', hI⟩ := agg_array_agg_total kvs hsc
+  rw [h] at hc'; cases hc'
+  refine ⟨atomsOf (groupVals kvs key), map_at_atomsOf _ (fun v hv => hsc _ (mem_groupVals.1 hv)), ?_⟩
+  simp [hI key, arrSumm, hk, Acc.final]
+
+/-- a list-valued argument anywhere makes ARRAY_AGG raise (nested lists are outside the value model) -/
+theorem agg_array_agg_nested (kvs : List (List Val × Val)) (hl : ∃ p ∈ kvs, ∃ l, p.2 = .list l)
+    (c : AggCol) (hc : c.kind = some .arrayAgg) : foldIncr c kvs = .error .exc := by
+  induction kvs generalizing c with
+  | nil => obtain ⟨p, hp, _⟩ := hl; cases hp
+  | cons p rest ih =>
+    obtain ⟨k, v⟩ := p
+    cases v with
+    | list l => simp [foldIncr, AggCol.increment, hc, bind, Except.bind]
+    | «at» a =>
+      have hrest : ∃ p ∈ rest, ∃ l, p.2 = .list l := by
+        obtain ⟨p, hp, l, hpl⟩ := hl
+        rcases List.mem_cons.1 hp with rfl | hp
+        · simp at hpl
+        · exact ⟨p, hp, l, hpl⟩
+      have : ∃ c', c.increment k (.at a) = .ok c' ∧ c'.kind = some .arrayAgg := by
+        simp only [AggCol.increment, hc]
+        split <;> exact ⟨_, rfl, rfl⟩
+      obtain ⟨c', h1, hc'⟩ := this
+      simp only [foldIncr, h1, bind, Except.bind]
+      exact ih hrest c' hc'
+
+/-! ### the constant-column verifier (`kind := none`) -/
+
+def ConstInv (c : AggCol) (seen : List (List Val × Val)) : Prop :=
+  c.kind = none ∧ ∀ key, lookupAcc c.stats key = (groupVals seen key).head?.map Acc.first ∧
+    ∀ v ∈ groupVals seen key, (groupVals seen key).head? = some v
+
+/-- one step of the verifier: either it accepts and the invariant is kept, or it raises because the
+group already holds a value different from the new one -/
+theorem const_step (c : AggCol) (seen : List (List Val × Val)) (k : List Val) (v : Val)
+    (h : ConstInv c seen) :
+    (∃ c', c.increment k v = .ok c' ∧ ConstInv c' (seen ++ [(k, v)])) ∨
+    (c.increment k v = .error .exc ∧ ∃ old ∈ groupVals seen k, old ≠ v) := by
+  obtain ⟨hk, hs⟩ := h
+  cases hg : groupVals seen k with
+  | nil =>
+    left
+    refine ⟨{ c with stats := setAcc c.stats k (.first v) }, ?_, hk, ?_⟩
+    · simp [AggCol.increment, hk, (hs k).1, hg]
+    · intro key
+      simp only [lookupAcc_setAcc, groupVals_snoc]
+      by_cases hkk : k = key
+      · subst hkk; simp [hg]
+      · simp only [hkk, if_false]; exact hs key
+  | cons old t =>
+    by_cases hov : old = v
+    · left
+      subst hov
+      refine ⟨c, ?_, hk, ?_⟩
+      · simp [AggCol.increment, hk, (hs k).1, hg]
+      · intro key
+        simp only [groupVals_snoc]
+        by_cases hkk : k = key
+        · subst hkk
+          have h2 := (hs k).2
+          simp only [hg] at h2
+          simp only [if_true, (hs k).1, hg]
+          refine ⟨by simp, ?_⟩
+          intro w hw
+          rcases List.mem_append.1 hw with hw | hw
+          · simpa using h2 w hw
+          · simp at hw; simp [hw]
+        · simp only [hkk, if_false]; exact hs key
+    · right
+      refine ⟨?_, old, by simp, hov⟩
+      simp [AggCol.increment, hk, (hs k).1, hg, hov]
+
+theorem const_fold (kvs : List (List Val × Val)) :
+    ∀ (c : AggCol) (seen : List (List Val × Val)), ConstInv c seen →
+      (∃ c', foldIncr c kvs = .ok c' ∧ ConstInv c' (seen ++ kvs)) ∨
+      (foldIncr c kvs = .error .exc ∧
+        ∃ key v w, v ∈ groupVals (seen ++ kvs) key ∧ w ∈ groupVals (seen ++ kvs) key ∧ v ≠ w) := by
+  induction kvs with
+  | nil => intro c seen h; left; exact ⟨c, rfl, by simpa using h⟩
+  | cons p rest ih =>
+    intro c seen h
+    obtain ⟨k, v⟩ := p
+    have happ : seen ++ (k, v) :: rest = (seen ++ [(k, v)]) ++ rest := by simp
+    rcases const_step c seen k v h with ⟨c1, h1, hI1⟩ | ⟨herr, old, hold, hne⟩
+    · simp only [foldIncr, h1, bind, Except.bind]
+      rw [happ]
+      exact ih c1 _ hI1
+    · right
+      refine ⟨by simp [foldIncr, herr, bind, Except.bind], k, old, v, ?_, ?_, hne⟩
+      · rw [groupVals_append]; exact List.mem_append_left _ hold
+      · rw [mem_groupVals]; simp
+
+/-- If the verifier accepts, every group is constant (all its values equal its first value) and the
+output for every key is that first value (no entry for keys that do not occur). -/
+theorem agg_const_ok (kvs : List (List Val × Val)) (c : AggCol)
+    (h : foldIncr { kind := none } kvs = .ok c) (key : List Val) :
+    (∀ v ∈ groupVals kvs key, (groupVals kvs key).head? = some v) ∧
+      (lookupAcc c.stats key).map Acc.final = (groupVals kvs key).head? := by
+  have h0 : ConstInv { kind := none } [] :=
+    ⟨rfl, fun key => by simp [lookupAcc_nil, groupVals_nil]⟩
+  rcases const_fold kvs _ [] h0 with ⟨c', hc', hI⟩ | ⟨herr, _⟩
+  · rw [h] at hc'; cases hc'
+    simp only [List.nil_append] at hI
+    refine ⟨(hI.2 key).2, ?_⟩
+    rw [(hI.2 key).1]
+    cases (groupVals kvs key).head? <;> simp [Acc.final]
+  · rw [h] at herr; cases herr
+
+/-- Conversely, two different values in one group (structural inequality on `Val`, so `None` against
+anything else counts) make the verifier raise. -/
+theorem agg_const_error (kvs : List (List Val × Val)) (key : List Val) (v w : Val)
+    (hv : v ∈ groupVals kvs key) (hw : w ∈ groupVals kvs key) (hne : v ≠ w) :
+    foldIncr { kind := none } kvs = .error .exc := by
+  have h0 : ConstInv { kind := none } [] :=
+    ⟨rfl, fun key => by simp [lookupAcc_nil, groupVals_nil]⟩
+  rcases const_fold kvs _ [] h0 with ⟨c', hc', _⟩ | ⟨herr, _⟩
+  · have h1 := (agg_const_ok kvs c' hc' key).1
+    have := (h1 v hv).symm.trans (h1 w hw)
+    exact absurd (Option.some.inj this) hne
+  · exact herr
+
+/-- the verifier accepts exactly the inputs whose groups are constant -/
+theorem agg_const_iff (kvs : List (List Val × Val)) :
+    (∃ c, foldIncr { kind := none } kvs = .ok c) ↔
+      ∀ key v w, v ∈ groupVals kvs key → w ∈ groupVals kvs key → v = w := by
+  constructor
+  · rintro ⟨c, hc⟩ key v w hv hw
+    have h1 := (agg_const_ok kvs c hc key).1
+    exact Option.some.inj ((h1 v hv).symm.trans (h1 w hw))
+  · intro hall
+    have h0 : ConstInv { kind := none } [] :=
+      ⟨rfl, fun key => by simp [lookupAcc_nil, groupVals_nil]⟩
+    rcases const_fold kvs _ [] h0 with ⟨c', hc', _⟩ | ⟨_, key, v, w, hv, hw, hne⟩
+    · exact ⟨c', hc'⟩
+    · simp only [List.nil_append] at hv hw
+      exact absurd (hall key v w hv hw) hne
 
 end Rbql
